@@ -87,7 +87,7 @@ type Store struct {
 func cmd(r Rep, idx, term uint64) []byte {
 	n := 24 + int((idx*37+term*11)%7)*90
 	if r == RA && idx == 7 {
-		n = 40 * 1024 // spans more than one 32KiB block of the Pebble WAL / Tan log
+		n = 100 * 1024 // spans four 32KiB blocks of the Pebble WAL / Tan log (a failed block write followed by successful ones)
 	}
 	b := make([]byte, n)
 	tag := fmt.Sprintf("%s/%d/%d|", r, idx, term)
